@@ -29,4 +29,22 @@ HARNESSES = [
                 _val(1, 12, "thorough", "bounded(hex text <= 12 bytes)"),
                 _val(2, 14, "thorough", "bounded(base64 text <= 14 bytes)"),
                 _val(3, 10, "thorough", "bounded(quoted text <= 10 bytes)")]),
+    dict(name="w12_dump_value", file="w12_dump_value.c", label="bounded(value <= 3 bytes)",
+         include_dirs=["bin/rdsquashfs/src"], nochecks=["--conversion-check"], timeout=900,
+         cases=[dict(id="vlen%d" % n, defines={"VLEN": n}, unwind=4 * n + 16, tier="quick") for n in (0, 1, 2, 3)] +
+               [dict(id="vlen4", defines={"VLEN": 4}, unwind=32, tier="thorough", label="bounded(value <= 4 bytes)")]),
+    dict(name="w12_xattr_apply_map", file="w12_xattr_apply_map.c",
+         label="bounded(patterns <= 2, entries <= 2 each, paths <= 3 bytes)",
+         include_dirs=GSRC, nochecks=["--conversion-check"], timeout=600, unwind=6,
+         cases=[dict(id="p%d_e%d%d" % (np, a, b), defines={"NPAT": np, "NENT0": a, "NENT1": b}, tier=t)
+                for np, a, b, t in ((1, 1, 0, "quick"), (2, 1, 1, "quick"), (2, 2, 1, "quick"), (2, 0, 2, "quick"),
+                                    (2, 2, 2, "thorough"), (1, 2, 0, "thorough"))] +
+               [dict(id="abs0_p2_e11", defines={"NPAT": 2, "NENT0": 1, "NENT1": 1, "ABS0": 1}, tier="quick")]),
+    dict(name="w12_apply_dfs", file="w12_apply_dfs.c", label="bounded(tree shapes <= 4 nodes)",
+         include_dirs=GSRC, nochecks=["--conversion-check"], timeout=300, unwind=6, native=False,
+         # allocation failure of the path strings is one of the logged calls (it fails when chosen)
+         flags=["--no-malloc-may-fail", "--memory-leak-check"],
+         pre_instrument_flags=["--replace-calls", "get_full_path:stub_get_full_path",
+                               "--replace-calls", "xattr_from_path:stub_xattr_from_path"],
+         cases=[dict(id="shape%d" % k, defines={"SHAPE": k}, tier="quick") for k in (0, 1, 2)]),
 ]
